@@ -5,6 +5,7 @@ import (
 	"crypto/x509"
 	"encoding/json"
 	"fmt"
+	"os"
 	"regexp"
 	"runtime"
 	"sort"
@@ -1041,6 +1042,9 @@ func TestCheck(t *testing.T) {
 		r.Assume("a pending requeue is re-delivered until it succeeds or a whole round of re-deliveries changes nothing")
 
 		nh := r.N(8000, 30000)
+		if os.Getenv("C11_REMOTE_N") != "" {
+			nh = 40 // debugging aid: the remote part only
+		}
 		workers := runtime.GOMAXPROCS(0)
 		if workers > 16 {
 			workers = 16
